@@ -1,4 +1,5 @@
 pub mod client;
+pub mod server;
 
 use crate::engine::{CheckSpec, Gen};
 use crate::tape::{Rng, Tape};
@@ -8,6 +9,7 @@ use serde::{Deserialize, Serialize};
 #[derive(Clone, Debug, Serialize, Deserialize)]
 pub enum Scenario {
     Client(client::ClientScn),
+    Server(server::ServerScn),
 }
 
 impl Scenario {
@@ -15,6 +17,7 @@ impl Scenario {
     pub fn valid(&self) -> bool {
         match self {
             Scenario::Client(c) => c.valid(),
+            Scenario::Server(c) => c.valid(),
         }
     }
 }
@@ -22,6 +25,7 @@ impl Scenario {
 pub fn run_scenario(s: &Scenario, tape: Tape) -> RunOutput {
     match s {
         Scenario::Client(c) => client::run(c, tape, true),
+        Scenario::Server(c) => server::run(c, tape, true),
     }
 }
 
@@ -44,6 +48,33 @@ fn g_client_extreme(r: &mut Rng) -> Scenario {
     Scenario::Client(client::gen(r, client::Focus::Extreme))
 }
 
+macro_rules! sgen {
+    ($name:ident, $focus:ident) => {
+        fn $name(r: &mut Rng) -> Scenario {
+            Scenario::Server(server::gen(r, server::SFocus::$focus))
+        }
+    };
+}
+sgen!(g_server_general, General);
+sgen!(g_server_cancel, Cancel);
+sgen!(g_server_deadlines, Deadlines);
+sgen!(g_server_limit, Limit);
+sgen!(g_server_dups, Dups);
+sgen!(g_server_shutdown, Shutdown);
+sgen!(g_server_extreme, Extreme);
+sgen!(g_server_independent, Independent);
+
+const SERVER_REAL: &[&str] = &[
+    "tarpc::server::BaseChannel / Requests / InFlightRequest::execute (real)",
+    "MaxRequests throttler when a limit is configured (real)",
+    "server InFlightRequests + DelayQueue + futures Abortable (real, paused tokio clock)",
+];
+const SERVER_STUB: &[&str] = &[
+    "transport: SimTransport (scripted Stream+Sink with contract monitor)",
+    "client peer: scripted requests, duplicates, id reuse, cancels, close",
+    "handlers: scripted Serve impls logging every poll and their own drop",
+];
+
 const CLIENT_REAL: &[&str] = &[
     "tarpc::client::new / Channel::call / RequestDispatch (real)",
     "client InFlightRequests + tokio_util DelayQueue (real, paused tokio clock)",
@@ -59,62 +90,104 @@ fn gen(name: &'static str, weight: u32, f: fn(&mut Rng) -> Scenario) -> Gen {
     Gen { name, weight, f, expand: None }
 }
 
+fn spec(
+    prop: &'static str,
+    level: &'static str,
+    gens: Vec<Gen>,
+    quick_runs: u64,
+    thorough_runs: u64,
+    rule: &'static str,
+    real: &'static [&'static str],
+    stub: &'static [&'static str],
+    assumptions: &'static [&'static str],
+) -> CheckSpec {
+    CheckSpec { prop, level, gens, quick_runs, thorough_runs, rule, real, stub, assumptions }
+}
+
+const BOTH_REAL: &[&str] = &[
+    "tarpc::client::new / Channel::call / RequestDispatch (real)",
+    "tarpc::server::BaseChannel / Requests / InFlightRequest::execute / MaxRequests (real)",
+    "both in-flight tables + tokio_util DelayQueue, cancellations, Abortable (real, paused tokio clock)",
+];
+const BOTH_STUB: &[&str] = &[
+    "transport: SimTransport (scripted Stream+Sink with contract monitor)",
+    "peers: scripted server (client side) / scripted client (server side)",
+    "caller tasks, handlers, executor and clock: simulator",
+];
+const NT: &str = "non-trivial = at least one fault or rare-condition probe fired in the run; distinct = distinct interleaving signature (hash of the (task, event kind, result kind) sequence)";
+
 pub fn checks() -> Vec<CheckSpec> {
+    let q = 400_000;
+    let t = 8_000_000;
     vec![
-        CheckSpec {
-            prop: "C01",
-            level: "exploration",
-            gens: vec![gen("client.general", 3, g_client_general), gen("client.abandon", 1, g_client_abandon), gen("client.deadlines", 1, g_client_deadlines)],
-            quick_runs: 300_000,
-            thorough_runs: 6_000_000,
-            rule: "seeded scenarios (1-8 concurrent calls over 1-3 handles, scripted peer answering reordered/duplicated/late/unknown ids) x seeded schedules; a run is non-trivial when at least one fault or rare-condition probe fired; distinct = distinct interleaving signature",
-            real: CLIENT_REAL,
-            stub: CLIENT_STUB,
-            assumptions: &["tokio/futures channel primitives are linearizable", "transport delivers in order (reordering is injected in the peer's behaviour)"],
-        },
-        CheckSpec {
-            prop: "C02",
-            level: "exploration",
-            gens: vec![gen("client.general", 2, g_client_general), gen("client.abandon", 1, g_client_abandon), gen("client.shutdown", 1, g_client_shutdown)],
-            quick_runs: 300_000,
-            thorough_runs: 6_000_000,
-            rule: "strict wake-only scheduling: a task is polled only after its waker fired; every call has a finite deadline below the horizon; hang = call still pending at quiescence; non-trivial = a fault/probe fired; distinct = interleaving signature",
-            real: CLIENT_REAL,
-            stub: CLIENT_STUB,
-            assumptions: &["stalls are finite", "tokio timers wake their registrant"],
-        },
-        CheckSpec {
-            prop: "C05",
-            level: "exploration",
-            gens: vec![gen("client.deadlines", 3, g_client_deadlines), gen("client.general", 1, g_client_general)],
-            quick_runs: 300_000,
-            thorough_runs: 6_000_000,
-            rule: "deadline classes {expired,0,1,2,5,20,50,1000 ms ...} x queueing delay (capacity 1, stalls) x replies at D-2,D-1,D,D+1,never; virtual clock; non-trivial = a fault/probe fired",
-            real: CLIENT_REAL,
-            stub: CLIENT_STUB,
-            assumptions: &["timer granularity 1 ms modelled as 2 ms slack"],
-        },
-        CheckSpec {
-            prop: "C14",
-            level: "exploration",
-            gens: vec![gen("client.general", 2, g_client_general), gen("client.independent", 1, g_client_independent), gen("client.abandon", 1, g_client_abandon)],
-            quick_runs: 300_000,
-            thorough_runs: 6_000_000,
-            rule: "contract monitor on every sink operation; capacities {1,2,3,inf}, coupled and independent readiness, stalls; non-trivial = a not-ready/flush-pending/stall fired",
-            real: CLIENT_REAL,
-            stub: CLIENT_STUB,
-            assumptions: &[],
-        },
-        CheckSpec {
-            prop: "C16",
-            level: "exploration",
-            gens: vec![gen("client.extreme", 1, g_client_extreme)],
-            quick_runs: 100_000,
-            thorough_runs: 2_000_000,
-            rule: "boundary-valued deadlines",
-            real: CLIENT_REAL,
-            stub: CLIENT_STUB,
-            assumptions: &[],
-        },
+        spec("C01", "exploration",
+            vec![gen("client.general", 3, g_client_general), gen("client.abandon", 1, g_client_abandon), gen("client.deadlines", 1, g_client_deadlines)],
+            q, t,
+            "seeded scenarios (1-8 concurrent calls over 1-3 handles, scripted peer answering reordered/duplicated/late/unknown ids) x seeded schedules; non-trivial = at least one fault or rare-condition probe fired; distinct = distinct interleaving signature",
+            CLIENT_REAL, CLIENT_STUB,
+            &["tokio/futures channel primitives are linearizable", "transport delivers in order (reordering is injected in the peer's behaviour)"]),
+        spec("C02", "exploration",
+            vec![gen("client.general", 2, g_client_general), gen("client.abandon", 1, g_client_abandon), gen("client.shutdown", 1, g_client_shutdown), gen("client.deadlines", 1, g_client_deadlines)],
+            q, t,
+            "strict wake-only scheduling: a task is polled only after its waker fired; every call has a finite deadline below the horizon; hang = call still pending at quiescence; non-trivial = a fault/probe fired; distinct = interleaving signature",
+            CLIENT_REAL, CLIENT_STUB,
+            &["stalls are finite", "tokio timers wake their registrant"]),
+        spec("C03", "exploration",
+            vec![gen("client.abandon", 3, g_client_abandon), gen("client.general", 1, g_client_general), gen("client.shutdown", 1, g_client_shutdown)],
+            q, t,
+            "abandonment before first poll / after k polls / at a time / when the request is on the wire / when a reply is queued / when the reply was read, crossed with capacity 1-3, buffer 1-3, stalled sink; preemption inside the guard's Drop (hook H2); per-id sink sequence and the cancel obligation at idle points",
+            CLIENT_REAL, CLIENT_STUB, &[]),
+        spec("C04", "exploration",
+            vec![gen("server.cancel", 3, g_server_cancel), gen("server.general", 1, g_server_general), gen("server.limit", 1, g_server_limit)],
+            q, t,
+            "cancel positioned before/after handler start, completion, response buffering and write; 1-8 concurrent requests; limit on/off; sink stalls",
+            SERVER_REAL, SERVER_STUB, &[]),
+        spec("C05", "exploration",
+            vec![gen("client.deadlines", 3, g_client_deadlines), gen("client.general", 1, g_client_general)],
+            q, t,
+            "deadline classes {expired,0,1,2,5,20,50,1000 ms ...} x queueing delay (capacity 1, stalls) x replies at D-2,D-1,D,D+1,never; virtual clock; non-trivial = a fault/probe fired",
+            CLIENT_REAL, CLIENT_STUB,
+            &["timer granularity 1 ms modelled as 2 ms slack"]),
+        spec("C06", "exploration",
+            vec![gen("server.deadlines", 3, g_server_deadlines), gen("server.general", 1, g_server_general), gen("server.limit", 1, g_server_limit)],
+            q, t,
+            "request deadlines {expired,0,1,2,5,10,20,50 ms} x handlers finishing at D-2..D+1/never x limit on/off x sink stalls; virtual clock",
+            SERVER_REAL, SERVER_STUB,
+            &["timer granularity 1 ms modelled as 2 ms slack"]),
+        spec("C08", "exploration",
+            vec![gen("server.general", 2, g_server_general), gen("server.dups", 3, g_server_dups), gen("server.cancel", 1, g_server_cancel), gen("server.shutdown", 1, g_server_shutdown)],
+            q, t,
+            "scripted peer sends fresh ids, duplicates while in flight, ids reused after their response, cancels and close; handlers complete in every order; response buffer 1,2,3,100",
+            SERVER_REAL, SERVER_STUB, &["id reuse after cancel/expiry with a still-buffered response is outside the property's quantifier and excluded from response attribution"]),
+        spec("C10", "exploration",
+            vec![gen("client.shutdown", 2, g_client_shutdown), gen("client.abandon", 1, g_client_abandon), gen("server.shutdown", 2, g_server_shutdown), gen("server.general", 1, g_server_general)],
+            q, t,
+            "client: last handle dropped / peer EOF at a random point of every run plus at the end of every run; server: inbound EOF after the script with mixed in-flight work",
+            BOTH_REAL, BOTH_STUB, &[]),
+        spec("C11", "exploration",
+            vec![gen("client.general", 2, g_client_general), gen("client.abandon", 2, g_client_abandon), gen("server.general", 2, g_server_general), gen("server.cancel", 1, g_server_cancel), gen("server.dups", 1, g_server_dups)],
+            q, t,
+            "in-flight and timer counts (hook H3) sampled after every dispatch / request-stream poll, compared with an interval model at every sample and at every idle point",
+            BOTH_REAL, BOTH_STUB, &[]),
+        spec("C12", "exploration",
+            vec![gen("server.limit", 1, g_server_limit)],
+            q, t,
+            "limits L in {0,1,2,3}, bursts of 1-8 requests, cancels, completion orders, sink stalls; interval model of in-flight (definitely/possibly)",
+            SERVER_REAL, SERVER_STUB, &[]),
+        spec("C14", "exploration",
+            vec![gen("client.general", 2, g_client_general), gen("client.independent", 1, g_client_independent), gen("client.abandon", 1, g_client_abandon), gen("server.general", 2, g_server_general), gen("server.independent", 1, g_server_independent), gen("server.limit", 1, g_server_limit)],
+            q, t,
+            "contract monitor on every sink operation; capacities {1,2,3,inf}, coupled and independent readiness, stalls; client dispatch, server channel and throttler",
+            BOTH_REAL, BOTH_STUB, &[]),
+        spec("C16", "exploration",
+            vec![gen("client.extreme", 1, g_client_extreme), gen("server.extreme", 1, g_server_extreme)],
+            200_000, 4_000_000,
+            "boundary-valued deadlines (0, 2^36 ms +-1, 100 and 8000 years, u64::MAX s, max nanos) from callers and peers, with no subscriber / fmt subscriber / OpenTelemetry SDK layer",
+            BOTH_REAL, BOTH_STUB, &[]),
+        spec("C18", "exploration",
+            vec![gen("client.abandon", 2, g_client_abandon), gen("client.general", 1, g_client_general), gen("server.general", 1, g_server_general)],
+            q, t,
+            "distinct caller-supplied trace ids and sampling decisions per call; wire Request/Cancel contexts and handler contexts compared",
+            BOTH_REAL, BOTH_STUB, &[]),
     ]
 }
